@@ -201,8 +201,14 @@ func (e *Engine) get(st *State, fr *Frame, v ssa.Value) Val {
 	case *ssa.Function:
 		return Val{e.funcValue(x, nil)}
 	case *ssa.Global:
-		// address of a global: canonical object named after the global
-		return Val{locID(&Loc{Prefix: "global:" + x.String() + "|", Keys: []*Term{IntC(0)}})}
+		// address of a global: a distinct pre-existing object of the global's type
+		key := "global:" + x.String()
+		id, ok := locIDs[key]
+		if !ok {
+			id = newObjID()
+			locIDs[key] = id
+		}
+		return Val{IntC(id)}
 	case *ssa.Builtin:
 		unsupported("builtin %s used as value", x.Name())
 	}
@@ -273,12 +279,7 @@ func (e *Engine) load(st *State, l *Loc, t types.Type) Val {
 	for i, lf := range leavesOf(t) {
 		if v[i].Op == "select" && !v[i].hasBV {
 			for _, f := range leafAssume(v[i], lf) {
-				if e.Mode == ModeSpec {
-					e.addFact(f)
-					st.learn(st.norm(f))
-				} else {
-					st.assume(f)
-				}
+				e.fact(st, f)
 			}
 		}
 	}
@@ -728,7 +729,7 @@ func (e *Engine) doTypeAssert(st *State, fr *Frame, x *ssa.TypeAssert) Val {
 	if _, isPtr := x.AssertedType.Underlying().(*types.Pointer); isPtr && e.inModuleIface(x.X.Type()) && !okT.IsFalse() {
 		// assumption: module interfaces never hold typed nil pointers
 		e.AssumedDep["no typed-nil pointer inside a module interface value"]++
-		st.assume(Implies(okT, Ne(data, IntC(0))))
+		e.fact(st, Implies(okT, Ne(data, IntC(0))))
 	}
 	if x.CommaOk {
 		var val Val
@@ -957,7 +958,7 @@ func (e *Engine) doBinOp(st *State, fr *Frame, x *ssa.BinOp) Val {
 		}
 		// uninterpreted fallback, constrained to the result type's range
 		r := App("bits_"+opName(x.Op)+"_"+rb.Name(), SInt, p, q)
-		st.assume(inRange(r, rb))
+		e.fact(st, inRange(r, rb))
 		return Val{r}
 	}
 	unsupported("binop %s on %s", x.Op, xt)
@@ -1037,8 +1038,8 @@ func (e *Engine) stringBinOp(st *State, x *ssa.BinOp, a, b *Term) Val {
 			return Val{a}
 		}
 		r := App("strcat", SInt, a, b)
-		st.assume(Eq(strLen(r), Add(strLen(a), strLen(b))))
-		st.assume(Le(IntC(0), r))
+		e.fact(st, Eq(strLen(r), Add(strLen(a), strLen(b))))
+		e.fact(st, Le(IntC(0), r))
 		return Val{r}
 	case token.LSS, token.LEQ, token.GTR, token.GEQ:
 		if aok && bok {
@@ -1130,7 +1131,7 @@ func (e *Engine) doIndex(st *State, fr *Frame, x *ssa.Index) Val {
 		e.oblige(st, e.safetyName("index-bounds"), "safety", x.Pos(), And(Le(IntC(0), idx), Lt(idx, strLen(v[0]))))
 		r := strByte(v[0], idx)
 		if !r.IsConst() {
-			st.assume(And(Le(IntC(0), r), Le(r, IntC(255))))
+			e.fact(st, And(Le(IntC(0), r), Le(r, IntC(255))))
 		}
 		return Val{r}
 	}
@@ -1154,7 +1155,7 @@ func (e *Engine) doLookup(st *State, fr *Frame, x *ssa.Lookup) Val {
 		e.oblige(st, e.safetyName("index-bounds"), "safety", x.Pos(), And(Le(IntC(0), idx), Lt(idx, strLen(s))))
 		r := strByte(s, idx)
 		if !r.IsConst() {
-			st.assume(And(Le(IntC(0), r), Le(r, IntC(255))))
+			e.fact(st, And(Le(IntC(0), r), Le(r, IntC(255))))
 		}
 		return Val{r}
 	}
@@ -1188,7 +1189,7 @@ func (e *Engine) doSlice(st *State, fr *Frame, x *ssa.Slice) Val {
 			hi = strLen(s)
 		}
 		e.oblige(st, e.safetyName("slice-bounds"), "safety", x.Pos(), And(Le(IntC(0), lo), Le(lo, hi), Le(hi, strLen(s))))
-		return Val{substr(st, s, lo, hi)}
+		return Val{e.substr(st, s, lo, hi)}
 	case *types.Pointer:
 		arr := t.Elem().Underlying().(*types.Array)
 		p := e.get(st, fr, x.X)[0]
@@ -1209,7 +1210,7 @@ func (e *Engine) doSlice(st *State, fr *Frame, x *ssa.Slice) Val {
 	return nil
 }
 
-func substr(st *State, s, lo, hi *Term) *Term {
+func (e *Engine) substr(st *State, s, lo, hi *Term) *Term {
 	if v, ok := strOf(s); ok {
 		l, ok1 := lo.ConstInt()
 		h, ok2 := hi.ConstInt()
@@ -1221,8 +1222,8 @@ func substr(st *State, s, lo, hi *Term) *Term {
 		return s
 	}
 	r := App("substr", SInt, s, lo, hi)
-	st.assume(Eq(strLen(r), Sub(hi, lo)))
-	st.assume(Le(IntC(0), r))
+	e.fact(st, Eq(strLen(r), Sub(hi, lo)))
+	e.fact(st, Le(IntC(0), r))
 	return r
 }
 
@@ -1242,8 +1243,8 @@ func (e *Engine) doConvert(st *State, fr *Frame, x *ssa.Convert) Val {
 			return Val{internStr(string(rune(c)))}
 		}
 		r := App("runestr", SInt, v[0])
-		st.assume(Le(IntC(0), r))
-		st.assume(And(Le(IntC(1), strLen(r)), Le(strLen(r), IntC(4))))
+		e.fact(st, Le(IntC(0), r))
+		e.fact(st, And(Le(IntC(1), strLen(r)), Le(strLen(r), IntC(4))))
 		return Val{r}
 	case fok && tok && fb.Info()&types.IsInteger != 0 && tb.Info()&types.IsFloat != 0:
 		if v[0].Op == "int" {
@@ -1252,7 +1253,7 @@ func (e *Engine) doConvert(st *State, fr *Frame, x *ssa.Convert) Val {
 		return Val{App("itof_"+tb.Name(), SInt, v[0])}
 	case fok && tok && fb.Info()&types.IsFloat != 0 && tb.Info()&types.IsInteger != 0:
 		r := App("ftoi_"+tb.Name(), SInt, v[0])
-		st.assume(inRange(r, tb))
+		e.fact(st, inRange(r, tb))
 		return Val{r}
 	case fok && tok && fb.Info()&types.IsFloat != 0 && tb.Info()&types.IsFloat != 0:
 		if fb.Kind() == tb.Kind() || tb.Kind() == types.Float64 {
@@ -1291,7 +1292,7 @@ func (e *Engine) doConvert(st *State, fr *Frame, x *ssa.Convert) Val {
 	}
 	if _, ok := from.(*types.Slice); ok && tok && tb.Info()&types.IsString != 0 {
 		r := Fresh("str_of_slice", SInt)
-		st.assume(Le(IntC(0), r))
+		e.fact(st, Le(IntC(0), r))
 		return Val{r}
 	}
 	if _, ok := to.(*types.Pointer); ok {
@@ -1386,10 +1387,10 @@ func (e *Engine) doNext(st *State, fr *Frame, x *ssa.Next) Val {
 		k := Fresh("mapkey", SInt)
 		more := Fresh("mapnext", SBool)
 		bv := BVar("k", SInt)
-		st.assume(Implies(more, And(Ne(it.mref, IntC(0)), Select(hasArr, k), Not(Select(it.seen, k)))))
-		st.assume(Implies(Not(more), Or(Eq(it.mref, IntC(0)), Forall([]*Term{bv}, Implies(Select(hasArr, bv), Select(it.seen, bv))))))
+		e.fact(st, Implies(more, And(Ne(it.mref, IntC(0)), Select(hasArr, k), Not(Select(it.seen, k)))))
+		e.fact(st, Implies(Not(more), Or(Eq(it.mref, IntC(0)), Forall([]*Term{bv}, Implies(Select(hasArr, bv), Select(it.seen, bv))))))
 		if ls := leavesOf(it.mtype.Key()); ls[0].Kind != LBool {
-			st.assume(And(leafAssume(k, ls[0])...))
+			e.fact(st, And(leafAssume(k, ls[0])...))
 		}
 		it.seen = Store(it.seen, k, tTrue)
 		val, _ := e.mapLookup(st, it.mtype, it.mref, k)
@@ -1416,4 +1417,20 @@ func decodeRune(s string) (rune, int) {
 		return r, w
 	}
 	return 0, 0
+}
+
+// fact records something that is true in every execution (a type invariant, a dependency's
+// postcondition). In verify mode it joins the path condition; while evaluating a specification
+// it must not become part of the specification's value, so it is handed to the caller.
+func (e *Engine) fact(st *State, t *Term) {
+	if e.Mode == ModeSpec {
+		t = st.norm(t)
+		if t.IsTrue() {
+			return
+		}
+		e.addFact(t)
+		st.learn(t)
+		return
+	}
+	st.assume(t)
 }
